@@ -5,6 +5,7 @@ import Ubx.Generated.Tables
 import Ubx.Model.PyHosts
 import Ubx.Model.PyReaderHosts
 import Ubx.Model.PyConfigHosts
+import Ubx.Model.PyWalkHosts
 /-!
 # Line-protocol driver: one operation per input line, one answer per output line.
 The Python harness (tools/harness) sends the same operations to the real pyubx2 and diffs.
@@ -286,6 +287,49 @@ def pylCfgOut (r : Py.X Py.CO (Py.V Py.CO)) : String :=
   | .ok _ => "bad-value"
   | .error e => excStr e
 
+/-! ### `pyl-construct`: the constructor's attribute walk done by the *translated* walker methods, interpreted together
+(`recHost`: `_set_attribute` → `_set_attribute_group` / `_set_attribute_single` / `_calc_num_repeats` → `_set_attribute` …);
+definition lookup, exception translation and length / checksum are the model's (`_get_dict`, `_do_attributes` are not translated) -/
+
+def allExcs : List Exc := [.ubxParse, .ubxMessage, .ubxType, .ubxStream, .indexE, .typeE, .valueE, .overflowE, .attributeE,
+  .structE, .keyE, .zeroDivE, .unboundLocalE, .unicodeE, .memoryE]
+def excOfName (n : Name) : Option Exc := allExcs.find? (fun e => Py.excName e == n)
+
+def pylWalkItems (H : Py.Host Py.AO Py.ASt) (defn : Defn) : List Item → Nat → Py.ASt → Except String (R (Nat × Py.ASt))
+  | [], off, st => .ok (.ok (off, st))
+  | it :: rest, off, st =>
+    match H.mcall (.host .self) Py.mSetAttr [.str (Py.Item.key it), .host (.dict defn), .int off, Py.idxT [], .host .kwargs] [] st with
+    | (.ok (.tuple [.int off', _]), st') => pylWalkItems H defn rest off'.toNat st'
+    | (.ok _, _) => .error "bad-value"
+    | (.error (.exc c _), _) =>
+      if c = Py.xUnsupported then .error "unsupported" else if c = Py.xFuel then .error "diverges"
+      else match excOfName c with
+        | some e => .ok (.error e)
+        | none => .error ("pyl-error:" ++ nameStr c)
+    | (.error _, _) => .error "pyl-error:non-exception"
+
+def pylConstruct (cls id : Bytes) (modeN : Nat) (bf : Bool) (kw : Kw) : String :=
+  match Mode.ofNat? modeN with
+  | none => resDump (.error .ubxMessage)
+  | some mode =>
+    let finish (pe : Option Bytes × Env) : String :=
+      match lenChecksum cls id pe.1 with
+      | .error e => resDump (.error (translateExc Gen.ctx e))
+      | .ok lc => resDump (.ok { cls := cls, id := id, mode := mode, payload := pe.1, length := lc.1, checksum := lc.2,
+                                 parsebf := bf, env := pe.2, immutable := true })
+    match kw with
+    | .empty => finish (none, [])
+    | _ =>
+      match getDict Gen.ctx cls id mode kw with
+      | .error e => resDump (.error (translateExc Gen.ctx e))
+      | .ok defn =>
+        let wc := walkCtx Gen.ctx cls id mode bf kw
+        let H := Py.recHost wc cls id modeN pylFuel 64
+        match pylWalkItems H defn defn 0 ⟨(kwPayload? kw).getD [], []⟩ with
+        | .error s => s
+        | .ok (.error e) => resDump (.error (translateExc Gen.ctx e))
+        | .ok (.ok (_, st)) => finish (some st.payload, st.env)
+
 def handlePyl (toks : List String) : String :=
   match toks with
   | ["pyl-cksum", h] =>
@@ -331,6 +375,19 @@ def handlePyl (toks : List String) : String :=
          let lens := (((src.drop 5).toString.replace "!" "").splitOn ",").filter (· ≠ "") |>.map toNatD
          pylReadp sockSrc (sockInit (splitChunks s lens)) cfg O (toNatD q) budget
      | none => "bad-op")
+  | "pyl-construct" :: cls :: id :: mode :: bf :: kind :: rest =>
+    (match unhex cls, unhex id with
+     | some c, some i =>
+       let kw : Option Kw :=
+         if kind = "E" then some .empty
+         else if kind = "P" then (rest.head?.bind unhex).map Kw.payload
+         else
+           let kws := rest.map parseKw
+           if kws.all Option.isSome then some (.attrs (kws.filterMap (fun x => x))) else none
+       (match kw with
+        | some k => pylConstruct c i (toNatD mode) (bf = "1") k
+        | none => "bad-op")
+     | _, _ => "bad-op")
   | "pyl-cfgset" :: layers :: txn :: rest =>
     let items := rest.map (fun t => match t.splitOn "=" with
       | [k, v] => (parseVal v).map (fun pv => (parseCfgKey k, pv))
